@@ -156,3 +156,22 @@ Example C05_fault_positions_example :
                  VDict [(VAtom PStr 1, VList []); (VAtom PStr 9, VAtom PInt 0)]])
   = [[SIdx 0; SField 1; SIdx 1]; [SIdx 1; SField 2]; [SIdx 1]].
 Proof. vm_compute. reflexivity. Qed.
+
+(* 6. What theorem 3 does NOT say (finding F45, open): it speaks of the __init__ attributes.  A hook that INCLUDES init=False attributes
+      structures those after the instance has been created; when an __init__ attribute is faulty the collected errors are raised before
+      instantiation and the faults of the init=False attributes are never looked at.  In the class-level template model: class 9 with
+      attribute 1 (an __init__ argument) and attribute 2 (init=False, default 0, included through _cattrs_include_init_false), a
+      handler that rejects the leaf 99: *)
+Local Open Scope N_scope.
+Definition f45_a : field N := {| f_name := 1; f_alias := 1; f_dflt := None; f_init := true; f_kw_only := false; f_kw_seen := false; f_conv := false |}.
+Definition f45_p : field N := {| f_name := 2; f_alias := 2; f_dflt := Some 0; f_init := false; f_kw_only := false; f_kw_seen := false; f_conv := false |}.
+Definition f45_opt : topts := {| t_cl := 9; t_forbid := false; t_use_alias := false; t_incl_init_false := true; t_omit_if_default := false |}.
+Definition f45_hs (_ v : N) : result N := if N.eqb v 99 then Err EValue else Ok v.
+Definition f45_run (d : list (N * N)) : result (inst N) :=
+  tpl_detailed N (fun _ v => Ok v) f45_opt (fun _ => neutral) f45_hs src_recheck [f45_a; f45_p] (dict_obj d).
+Theorem C05_initfalse_fault_hidden_by_init_fault_refuted :
+  f45_run [(1, 99); (2, 99)] = Err (EClassVal 9 [(Some 1, EValue)])       (* two faults, ONE leaf: attribute 2's fault is not reported ... *)
+  /\ f45_run [(1, 5); (2, 99)] = Err (EClassVal 9 [(Some 2, EValue)])     (* ... although alone it is *)
+  /\ f45_run [(1, 5); (2, 7)] = Ok [(1, 5); (2, 7)].
+Proof. vm_compute. repeat split; reflexivity. Qed.
+Print Assumptions C05_initfalse_fault_hidden_by_init_fault_refuted.
